@@ -211,8 +211,23 @@ def coqchk_property(pid):
 ALLOWED_AXIOMS = set()   # none: every theorem must be closed under the global context
 
 
+# further property files of a property (same rules: pinned statements, Print Assumptions, closed); not re-checked by coqchk
+EXTRA_PROPERTY_FILES = {"C18": ["C18Sweep"]}
+
+
 def check_property_file(pid):
-    """compile Properties/<pid>.v afresh, return (theorems, assumptions, pinned) or raise"""
+    """compile Properties/<pid>.v (and its further files) afresh, return (theorems, assumptions, pinned) or raise"""
+    info = check_one_property_file(pid)
+    for extra in EXTRA_PROPERTY_FILES.get(pid, []):
+        more = check_one_property_file(extra)
+        info["theorems"] += more["theorems"]
+        info["examples"] += more["examples"]
+        info["closed"] += more["closed"]
+        info["statement_sha"] = hashlib.sha256((info["statement_sha"] + more["statement_sha"]).encode()).hexdigest()[:16]
+    return info
+
+
+def check_one_property_file(pid):
     src = os.path.join(COQ, "Properties", pid + ".v")
     text = open(src, encoding="utf-8").read()
     theorems = re.findall(r"^(?:Theorem|Corollary)\s+(\w+)", text, re.M)
